@@ -137,33 +137,31 @@ extern const vf::Info vf_info;
 
 // ---------------------------------------------------------------- PPL handlers
 // Strong definitions of PPL's weak assertion handlers (DESIGN.md F2/F11).
+// Policy: an internal assertion is a *lead*, never a verdict.  With hook H1
+// (-DBUGSENG_PPL_VERIF) the handler records the site and RETURNS, i.e. execution
+// continues exactly as in the shipped NDEBUG configuration; the behavioural oracles
+// decide.  PPL_UNREACHABLE aborts in the shipped configuration too, so it throws
+// (a crash of the shipped library is a verdict).
 namespace vf {
-struct AssertIgnore { const char* file; const char* text; };
-// Sites whose assertion is stricter than the code's contract (DESIGN.md §6).
-static const AssertIgnore assert_ignore_list[] = {
-  { "Sparse_Row.cc", "i == i_end || j == j_end" },
-};
-inline bool& asserts_fatal() { static bool b = true; return b; }
+inline std::vector<std::string>& fired_asserts() { static std::vector<std::string> v; return v; }
 }
 namespace Parma_Polyhedra_Library {
 void ppl_assertion_failed(const char* t, const char* f, unsigned l, const char*) {
   const char* base = std::strrchr(f, '/'); base = base ? base + 1 : f;
-  for (const vf::AssertIgnore& ig : vf::assert_ignore_list)
-    if (std::strcmp(base, ig.file) == 0 && std::strcmp(t, ig.text) == 0) {
-      vf::stats().ignored_asserts[std::string(base) + ":" + ig.text]++;
-#ifdef BUGSENG_PPL_VERIF
-      return;
-#endif
-    }
   std::string site = std::string(base) + ":" + std::to_string(l);
+  if (vf::fired_asserts().size() < 50) vf::fired_asserts().push_back(site + " (" + t + ")");
+#ifdef BUGSENG_PPL_VERIF
+  return;
+#else
   throw vf::PplAssert(site, std::string("PPL assertion failed: ") + t + " at " + site);
+#endif
 }
 void ppl_unreachable_msg(const char* t, const char* f, unsigned l, const char*) {
   const char* base = std::strrchr(f, '/'); base = base ? base + 1 : f;
   std::string site = std::string(base) + ":" + std::to_string(l);
-  throw vf::PplAssert("unreachable:" + site, std::string("PPL_UNREACHABLE reached: ") + t + " at " + site);
+  throw vf::PplAssert("unreachable:" + site, std::string("PPL_UNREACHABLE reached (abort() in the shipped build): ") + t + " at " + site);
 }
-void ppl_unreachable() { throw vf::PplAssert("unreachable", "PPL_UNREACHABLE reached"); }
+void ppl_unreachable() { throw vf::PplAssert("unreachable", "PPL_UNREACHABLE reached (abort() in the shipped build)"); }
 }
 
 namespace vf {
@@ -175,6 +173,7 @@ struct Outcome {
   std::vector<uint32_t> used;
   bool nontrivial = false;
   std::vector<std::string> tags;
+  std::vector<std::string> asserts;   // internal assertion sites that fired (leads)
 };
 
 // hook for per-harness budget exceptions (refgeom etc.)
@@ -184,17 +183,28 @@ inline bool classify_exception(std::exception& e, Outcome& o) {
   return false;
 }
 
+// per-case reset of oracle budgets (overridable by defining VF_CASE_BEGIN before including common.hh)
+inline void case_begin_hook() {
+#ifdef VF_CASE_BEGIN
+  VF_CASE_BEGIN;
+#endif
+}
+
 inline Outcome run_one(const std::vector<uint32_t>& tape, bool verbose = false) {
   Outcome o; Ctx c(tape); c.verbose = verbose;
+  fired_asserts().clear();
+  case_begin_hook();
   try { vf_case(c); }
   catch (Fail& f) { o.kind = Outcome::FAIL; o.id = f.id; o.msg = f.msg; }
   catch (Inconclusive& i) { o.kind = Outcome::INCONCLUSIVE; o.msg = i.why; }
-  catch (PplAssert& a) { o.kind = Outcome::FAIL; o.id = "assert:" + a.site; o.msg = a.what(); }
+  catch (PplAssert& a) { o.kind = Outcome::FAIL; o.id = (a.site.compare(0, 11, "unreachable") == 0 ? "" : "assert:") + a.site; o.msg = a.what(); }
   catch (rc::detail::CaseResult&) { throw; }
   catch (std::bad_alloc&) { o.kind = Outcome::INCONCLUSIVE; o.msg = "bad_alloc"; }
   catch (std::exception& e) {
     if (!classify_exception(e, o)) { o.kind = Outcome::FAIL; o.id = std::string("exception:") + typeid(e).name(); o.msg = e.what(); }
   }
+  o.asserts = fired_asserts();
+  if (o.kind == Outcome::FAIL && !o.asserts.empty()) { o.msg += "  [internal assertions fired first: "; for (size_t i = 0; i < o.asserts.size() && i < 3; ++i) o.msg += (i ? "; " : "") + o.asserts[i]; o.msg += "]"; }
   o.log = c.log.str(); o.used = c.t.used; o.nontrivial = c.nontrivial; o.tags = c.tags;
   return o;
 }
@@ -308,6 +318,7 @@ inline void account(const Outcome& o) {
   Stats& s = stats();
   s.evaluations++;
   for (const std::string& t : o.tags) s.hist[t]++;
+  { std::set<std::string> seen; for (const std::string& a : o.asserts) if (seen.insert(a).second) s.ignored_asserts[a]++; }
   if (o.kind == Outcome::INCONCLUSIVE) { s.inconclusive++; s.inconc[o.msg.substr(0, 60)]++; return; }
   if (o.nontrivial) {
     s.nontrivial++;
@@ -335,7 +346,9 @@ inline int main_impl(int argc, char** argv) {
     install_crash_handlers(); g_current = tape;
     Outcome o = run_one(tape, verbose);
     if (verbose) std::cout << o.log;
-    if (o.kind == Outcome::FAIL) { std::cout << "RESULT fail check=" << o.id << " :: " << o.msg << "\n"; return 1; }
+    if (!o.asserts.empty()) std::cout << "ASSERTS " << o.asserts.size() << " " << o.asserts[0] << "\n";
+    if (o.kind == Outcome::FAIL) { std::string m = o.msg; for (char& ch : m) if (ch == '\n') ch = ' '; std::cout << "RESULT fail check=" << o.id << " :: " << m << "\n"; return 1; }
+
     std::cout << "RESULT " << (o.kind == Outcome::PASS ? "pass" : "inconclusive " + o.msg) << "\n"; return 0;
   }
   if (mode == "shrink") {
@@ -351,7 +364,7 @@ inline int main_impl(int argc, char** argv) {
   install_crash_handlers();
   auto t0 = std::chrono::steady_clock::now();
   auto elapsed = [&]() { return std::chrono::duration<double>(std::chrono::steady_clock::now() - t0).count(); };
-  const int batch = 200;
+  const int batch = 50;
   bool failed = false; std::string fail_id; Outcome fail_outcome; std::vector<uint32_t> fail_tape;
   auto tape_gen = rc::gen::scale(vf_info.scale, rc::gen::container<std::vector<uint32_t>>(rc::gen::resize(100, rc::gen::arbitrary<uint32_t>())));
   uint64_t b = 0;
